@@ -82,6 +82,7 @@ func TestC03Aliasing(t *testing.T) {
 			vlib.Check(t, vlib.N(40, 150), func(t *rapid.T) { historyCase(t, im) })
 			vlib.Check(t, vlib.N(40, 150), func(t *rapid.T) { overlapCase(t, im) })
 			vlib.Check(t, vlib.N(40, 150), func(t *rapid.T) { retainCase(t, im) })
+			vlib.Check(t, vlib.N(40, 150), func(t *rapid.T) { returnedCase(t, im) })
 		})
 	}
 }
@@ -590,6 +591,85 @@ func pkeOverlapCase(t *rapid.T, im pkeImpl) {
 		}
 	}
 	vlib.NonTrivial(sub, "pke-overlap-checked", d, m, r, []byte(kind), []byte{byte(off), byte(off >> 8)}, []byte(flavour))
+}
+
+// returnedCase: every byte slice an API call RETURNS (MarshalBinary of ek / dk /
+// sk.Public(), ciphertext and shared secret of the scheme API) is overwritten,
+// spare capacity included, right after it has been compared; the next
+// observation of the same objects must again be the reference bytes (a
+// returned slice must not be the object's own storage).
+func returnedCase(t *rapid.T, im impl) {
+	p := im.ref
+	sub := "returned/" + im.name
+	seed := vlib.EdgeBytes(t, 64, "seed")
+	m := vlib.EdgeBytes(t, 32, "m")
+	ek, dk := p.KeyGen(seed[:32], seed[32:])
+	K, c := p.Encaps(ek, m)
+	cBad := append([]byte{}, c...)
+	i := rapid.IntRange(0, 8*len(c)-1).Draw(t, "badbit")
+	cBad[i/8] ^= 1 << uint(i%8)
+	KBad := p.Decaps(dk, cBad)
+	vlib.Eval(sub)
+	source := rapid.SampledFrom([]string{"DeriveKeyPair", "DeriveKeyPair", "UnmarshalBinary"}).Draw(t, "source")
+	fill := rapid.SampledFrom([]byte{0x00, 0xff, 0x5a}).Draw(t, "fill")
+	scribble := func(b []byte) {
+		b = b[:cap(b)]
+		for j := range b {
+			b[j] = fill
+		}
+	}
+	desc := fmt.Sprintf("seed %x m %x keys from %s, returned slices overwritten with %#x", seed, m, source, fill)
+	var pk kem.PublicKey
+	var sk kem.PrivateKey
+	var bad string
+	if !catchRep(t, "C03/panic/"+im.name+"/returned", desc, func() {
+		if source == "DeriveKeyPair" {
+			pk, sk = im.sch.DeriveKeyPair(seed)
+		} else {
+			var e1, e2 error
+			pk, e1 = im.sch.UnmarshalBinaryPublicKey(append([]byte{}, ek...))
+			sk, e2 = im.sch.UnmarshalBinaryPrivateKey(append([]byte{}, dk...))
+			if e1 != nil || e2 != nil {
+				bad = fmt.Sprintf("parsing a generated key failed: %v %v", e1, e2)
+				return
+			}
+		}
+		for round := 1; round <= 3 && bad == ""; round++ {
+			check := func(what string, got, want []byte, err error) {
+				if bad == "" && (err != nil || !bytes.Equal(got, want)) {
+					bad = fmt.Sprintf("round %d: %s: err=%v, equals the reference=%v (first differing byte %d of %d)", round, what, err, bytes.Equal(got, want), firstDiff(got, want), len(want))
+				}
+				scribble(got)
+			}
+			b, err := pk.MarshalBinary()
+			check("pk.MarshalBinary", b, ek, err)
+			b, err = sk.MarshalBinary()
+			check("sk.MarshalBinary", b, dk, err)
+			b, err = sk.Public().MarshalBinary()
+			check("sk.Public().MarshalBinary", b, ek, err)
+			ct, ss, err := im.sch.EncapsulateDeterministically(pk, m)
+			check("EncapsulateDeterministically ct", ct, c, err)
+			check("EncapsulateDeterministically ss", ss, K, err)
+			ss, err = im.sch.Decapsulate(sk, c)
+			check("Decapsulate(honest c)", ss, K, err)
+			ss, err = im.sch.Decapsulate(sk, cBad)
+			check("Decapsulate(invalid c)", ss, KBad, err)
+			if round == 2 && bad == "" {
+				// the re-marshalled key must still parse (ML-KEM checks it)
+				b, _ = pk.MarshalBinary()
+				if _, err := im.sch.UnmarshalBinaryPublicKey(b); err != nil {
+					bad = fmt.Sprintf("round %d: the re-marshalled ek is refused: %v", round, err)
+				}
+			}
+		}
+	}) {
+		return
+	}
+	if bad != "" {
+		vlib.Report(t, "C03/returned/"+im.name+"/"+source, desc+": "+bad)
+		return
+	}
+	vlib.NonTrivial(sub, "returned-slices-overwritten", seed, m, []byte(source), []byte{fill})
 }
 
 // ---------------------------------------------------------------------------
